@@ -75,8 +75,10 @@ def main(tier):
     mc = run_tlc("PyDRexMC", workers=16, timeout=1500)
     chk.add_tlc("PyDRexMC", mc, "Layer-B machine, all reachable states: AppendOnly (one snapshot per update, earlier ones untouched), ShapeOK, FailureAtomic")
     quiet_pydrex()
-    num = 50 if quick else 800
-    depth = 14 if quick else 40
+    # (content terms double with every update: histories of 40 calls made TLC's output and heap grow to tens of GB;
+    #  long histories are covered by the dedicated 13-update runs below and by C17's 33..128-snapshot traces)
+    num = 50 if quick else 320
+    depth = 14 if quick else 20
     # the simulation config bounds behaviours by MaxOps; thorough uses longer histories
     if quick:
         behs, sim = layerb.generate_behaviours("PyDRexC01", "PyDRexC01", num, depth, SEED + 101)
